@@ -136,14 +136,16 @@ CLAIMED = {
         note='Trusted: expected targets by construction for a fixed menu of path/query pieces (calibrated once against the code: '
              'space in query is "+"). Option-level credentials are not host-bound and not judged. TLS is a plaintext stub.'),
     'C18': dict(
-        level='exploration', engine='web', design_ref='4/C18',
+        level='exploration', engine='bounded', design_ref='4/C18',
         technique='deterministic simulation: adversarial simulated servers (redirect cycles, unbounded chains, mixed codes, missing or '
                   'unparsable Location, perpetual 401/5xx, resets, stalls past the timeout on a virtual clock) against the real '
                   'WebSession visit loop for all redirect limits; request counts from the server log',
         text='Seeded search over adversarial strategies and --max-redirect values. Oracle from the server log: redirect follow-ups '
              'within one visit <= limit, at most one authentication retry in a row per URL, endless redirects end with a protocol '
-             'error, the visit terminates (deadlock / budget detection on virtual time). The per-URL tries bound over the whole crawl '
-             'loop is checked by the crawl harness runs of this property (when built).',
+             'error, the visit terminates (deadlock / budget detection on virtual time). One run in three is crawl level: the whole '
+             'application against perpetually failing URLs (5xx, reset, refused, stall, redirect loop) with drawn --tries, '
+             '--max-redirect, --retry-connrefused, --waitretry; visits per URL (distinct item try counts seen at the server) <= tries, '
+             'no request once the tries are used up, and the crawl terminates.',
         note='Trusted: the visit loop replicated from WebProcessorSession._process_loop; virtual clock makes 30 s read timeouts free.'),
     'C01': dict(
         level='exploration', engine='crawl', design_ref='4/C01',
